@@ -31,7 +31,7 @@ def tree(v):
         return {"t": "str", "s": cps(v)}
     if isinstance(v, list):
         return {"t": "arr", "xs": [tree(x) for x in v]}
-    return {"t": "obj", "ks": [cps(k) for k in v], "vs": [tree(x) for x in v.values()]}
+    return {"t": "obj", "ks": [cps(str(k).lower() if isinstance(k, bool) else str(k)) for k in v], "vs": [tree(x) for x in v.values()]}
 
 
 def typed(v):
@@ -43,7 +43,7 @@ def typed(v):
         return {"$f64": repr(v)}
     if isinstance(v, list):
         return [typed(x) for x in v]
-    return {"$map": [[k, typed(x)] for k, x in v.items()]}
+    return {"$map": [[(k if isinstance(k, (str, bool)) else {"$i64": str(k)} if -2**63 <= k < 2**63 else {"$i128": str(k)}), typed(x)] for k, x in v.items()]}
 
 
 def run(tier):
@@ -72,7 +72,7 @@ def run(tier):
         jobs.append({"cfg": {"contrib": True}, "ctx": {"s": s}, "steps": steps})
     # JSON values
     scal = [None, True, False, 0, -1, 2**63 - 1, -2**63, 2**64 - 1, 0.5, -2.25, 1e300, "", "a\"b\\c", "\n\t\x01", "é世\U0001F600", "</script>"]
-    vals = list(scal) + [[], {}, [1, "a", None], {"a": 1, "b": [True, {"c": "d\""}]}, {"é": {"\"": [[], {}]}}, [[["x"]]], {"k": 0.5, "z": [1.5, -1]}]
+    vals = list(scal) + [{-1: "x", 5: "y"}, {-2**63: 1, 2**70: [2], 0: None}, {True: 1, "a": {-7: "neg"}}, [], {}, [1, "a", None], {"a": 1, "b": [True, {"c": "d\""}]}, {"é": {"\"": [[], {}]}}, [[["x"]]], {"k": 0.5, "z": [1.5, -1]}]
     for _ in range(50 if tier == "quick" else 500):
         def gen(d):
             r = rnd.random()
